@@ -394,7 +394,7 @@ RULES = [
 
 
 from . import shared
-RULES = RULES + shared.bundle('C09', ['drivers', 'gpu', 'carry', 'gate', 'restart', 'values', 'stride', 'norm', 'loops'], ['kernelpy', 'kernel', 'details'])
+RULES = RULES + shared.bundle('C09', ['pymodel', 'drivers', 'gpu', 'carry', 'gate', 'restart', 'values', 'stride', 'norm', 'loops'], ['kernelpy', 'kernel', 'details'])
 from .. import refs as _refs
 RULES = RULES + [_refs.ref_rule('C09')]
 
